@@ -56,7 +56,35 @@ def f22():
                 "observed": repr(r), "expected": "{}"}
 
 
-REPLAYS = {"F4": f4, "F11": f11, "F3": f3, "F22": f22}
+def f23():
+    from typing import Union
+    from cattrs import Converter
+
+    @attrs.define
+    class A:
+        a: int
+        x: int
+
+    @attrs.define
+    class B:
+        x: int
+        y: int
+
+    @attrs.define
+    class C:
+        y: int
+    out = {}
+    for order in ((A, B, C), (B, A, C)):
+        try:
+            Converter().get_structure_hook(Union[order])
+            out["/".join(c.__name__ for c in order)] = "hook created"
+        except Exception as e:
+            out["/".join(c.__name__ for c in order)] = f"{type(e).__name__}: {e}"[:80]
+    if len(set(v.split(":")[0] for v in out.values())) > 1:
+        return {"python_repro": "A(a, x), B(x, y), C(y): Converter().get_structure_hook(Union[A, B, C]) vs Union[B, A, C]", "observed": out}
+
+
+REPLAYS = {"F4": f4, "F11": f11, "F3": f3, "F22": f22, "F23": f23}
 
 
 def run_corpus(v):
